@@ -27,7 +27,7 @@ def tie(ctx):
 def gen(rng):
     r = rng.random()
     if r < 0.65:
-        s = netgen.gen_hydraulic(rng, features={"p_outage": 0.3, "p_pipe_valve": 0.0, "p_vary_t": 0.0})
+        s = netgen.gen_hydraulic(rng, features={"p_outage": 0.3, "p_pipe_valve": 0.0, "p_vary_t": 0.0, "p_fc": 0.3})
     elif r < 0.85:
         s = netgen.gen_heat_tree(rng)
     else:
@@ -47,6 +47,14 @@ def gen(rng):
     gas = s["fluid"] != "water"
     choices = [w for w in REWRITES if not (gas and w in ("one_section", "shift_pressure"))]
     s["c09"] = {"rewrite": str(rng.choice(choices)), "seed": int(rng.integers(0, 2 ** 31)), "shift": float(rng.uniform(0.5, 3.0))}
+    if s["c09"]["rewrite"] == "drop_disabled":
+        # make sure elements of every kind are among the switched-off ones (not only pipes): an element out of service equals
+        # its absence, also when both its junctions stay supplied through other branches
+        cand = [(t, i) for t in ("flow_controls", "heat_consumers", "heat_exchangers", "pumps", "compressors", "press_controls",
+                                 "sinks", "sources") for i in range(len(s[t]))]
+        for k in rng.permutation(len(cand))[:int(rng.integers(1, 3))]:
+            t, i = cand[int(k)]
+            s[t][i]["in_service"] = False
     if s["c09"]["rewrite"] == "split_series" and r < 0.65 and rng.random() < 0.6:
         # given, non-uniform junction temperatures (hydraulics mode): a sectioned pipe interpolates them linearly along its
         # internal nodes, exactly what the series of pipes with interpolated junction temperatures describes
@@ -220,6 +228,16 @@ def oracle(spec):
     for t in info["skip_tables"]:
         if t in na:
             na[t] = na[t].iloc[0:0]
+    if w == "drop_disabled":
+        # the statement is about the rest of the network: the switched-off elements' own result rows are left out
+        names = {"pipes": "pipe", "valves": "valve", "pumps": "pump", "compressors": "compressor", "flow_controls": "flow_control",
+                 "press_controls": "press_control", "heat_exchangers": "heat_exchanger", "heat_consumers": "heat_consumer",
+                 "sinks": "sink", "sources": "source", "mass_storages": "mass_storage", "ext_grids": "ext_grid",
+                 "circ_pumps_p": "circ_pump_pressure", "circ_pumps_m": "circ_pump_mass"}
+        for t, tbl in names.items():
+            off = [e["index"] for e in spec[t] if not (e.get("opened", True) if t == "valves" and e.get("et") == "ju" else e.get("in_service", True))]
+            if off and ("res_" + tbl) in na:
+                na["res_" + tbl] = na["res_" + tbl].drop(index=[i for i in off if i in na["res_" + tbl].index])
     d = oracles.compare_results(na, nb, atol=1e-6, rtol=1e-5, flow_scale_tol=1e-3, subset=True, skip_cols=skip)
     if w == "split_series" and not d:
         # the far end of the original pipe corresponds to the far end of the last piece
